@@ -270,6 +270,45 @@ class Opaque(object):
         return '<%s %s>' % (self.kind, ', '.join('%s=%r' % kv for kv in sorted(self.f.items(), key=lambda kv: kv[0])[:4]))
 
 
+class MemView(Opaque):
+    """a Cython typed memoryview handed back to Python (``cdef double [:] x ... return x``): it supports indexing and the buffer
+    protocol (numpy converts it) but NO arithmetic -- ``0 + view`` or ``view * 2`` is a TypeError of the program"""
+    def __init__(self, of):
+        Opaque.__init__(self, 'memoryview', of=of)
+
+    def _no(self, op, o):
+        raise SymRaise('TypeError', ("unsupported operand type(s) for %s: '%s' and '_memoryviewslice'" % (op, type(o).__name__),))
+
+    def __add__(self, o):
+        if isinstance(o, Opaque) and not isinstance(o, MemView):
+            return o + self.f['of']          # numpy array (op) memoryview: numpy converts the view
+        self._no('+', o)
+
+    def __radd__(self, o):
+        if isinstance(o, Opaque) and not isinstance(o, MemView):
+            return o + self.f['of']
+        self._no('+', o)
+
+    def __sub__(self, o):
+        self._no('-', o)
+
+    def __rsub__(self, o):
+        if isinstance(o, Opaque) and not isinstance(o, MemView):
+            return o - self.f['of']
+        self._no('-', o)
+
+    def __mul__(self, o):
+        self._no('*', o)
+
+    __rmul__ = __mul__
+
+    def __neg__(self):
+        raise SymRaise('TypeError', ("bad operand type for unary -: '_memoryviewslice'",))
+
+    def key(self):
+        return ('memoryview', self.f['of'].key() if isinstance(self.f['of'], Opaque) else repr(self.f['of']))
+
+
 def _flat_terms(o):
     if o.kind == 'sum':
         return list(o.f['terms'])
